@@ -527,6 +527,30 @@ func ruleResolveOwner(c *Ctx) {
 					}
 				}
 				c.check(bumped, key, in.Pos(), "type-table update in recordVar is followed by updates++", "recordVar changes the type table without incrementing the update counter: the fixpoint loop may terminate early")
+				// the scope written is the scope the variable was found in: the outer key is the constant
+				// global scope (a new global) or the scope name lookupVar reported, never a parameter
+				if lk, ok := mu.Map.(*ssa.Lookup); ok {
+					scopeOK, what := false, "an unrecognised value"
+					switch k := lk.Index.(type) {
+					case *ssa.Const:
+						scopeOK, what = true, "the constant global scope"
+					case *ssa.Extract:
+						if call, ok := k.Tuple.(*ssa.Call); ok {
+							if cal := call.Call.StaticCallee(); cal != nil && cal.Name() == "lookupVar" {
+								res := cal.Signature.Results()
+								if k.Index < res.Len() && res.At(k.Index).Type().String() == "string" {
+									scopeOK, what = true, "the scope reported by lookupVar"
+								}
+							}
+						}
+					case *ssa.Parameter:
+						what = "the parameter " + k.Name() + " (the function being resolved)"
+					}
+					c.check(scopeOK, key+":scope", in.Pos(), "entry written into "+what,
+						"recordVar writes the updated entry into "+what+" rather than into the scope lookupVar found the variable in: a global used inside a function gets a phantom local entry while the real global stays untyped, so the inferred scalar/array kinds differ from what the program needs")
+				} else {
+					c.undecided(key+":scope", in.Pos(), "the type table is not updated through varInfo[scope][name]")
+				}
 				return
 			}
 			c.ok(key, in.Pos(), "type table written by its owner %s", root.Name())
